@@ -118,6 +118,14 @@ def cases(rng, tier):
                 add(f, R.pderiv(f), 'quadrinomial-derivative')
                 if (kk + j) % 2 == 0:
                     h = R.rpoly(rng, 1, 3); add(R.pmul(f, h), R.pmul(R.pderiv(f), h), 'quadrinomial-derivative-planted')
+    # contents at the machine-word boundaries (+-2^31, +-2^32, +-2^63, +-2^64 and neighbours): the contents are BigInts, any
+    # shortcut through i64 / u64 arithmetic shows only here (e.g. both contents exactly -2^63)
+    edges = [2 ** 31, -2 ** 31, 2 ** 32, -2 ** 32, 2 ** 63, -2 ** 63, 2 ** 63 - 1, -2 ** 63 + 1, 2 ** 64, -2 ** 64, 2 ** 62, -2 ** 62]
+    shapes = [([1], [1]), ([-1, 0, 1], [1, 1]), ([1, 1], [1]), ([2, 1], [3, 1]), ([-1, 0, 1], []), ([], [1, 1]), ([1], []), ([1, 2, 1], [1, 1])]
+    for c1 in edges:
+        for c2 in (c1, -c1, edges[(edges.index(c1) + 3) % len(edges)], 6):
+            for f0, g0 in shapes:
+                add(R.pscale(c1, f0), R.pscale(c2, g0), 'word-boundary-contents')
     s = Case('resultant_gcd', line('resultant_gcd', [1], [1]), model=line('resultant_gcd_x', [1], [1]), compare=cmpf, nontrivial=False, tag='flag-count')
     fc.sentinel = s
     out.append(s)
